@@ -122,7 +122,7 @@ fn apply_wire(inst: &mut Inst, ups: &[MMember], g: &mut G) -> bool {
 /// C01: order / multiplicity independence, re-applying own state, pairwise exchange
 pub fn c01(seed: u64, budget: u64) -> FOut {
     let mut out = FOut::default();
-    out.rule = "random update multisets over 4 addresses x 4 generations x incarnations {0,1,2,3,255,256,2^15-1,2^15,2^15+1,2^15+2,MAX-1,MAX, random u16} x 3 states (plus other identities of the instance's own address), sizes 1..10; each applied in 6 random permutations with random duplications - five through the real apply_many (whole list or one by one), one over the wire as Gossip datagrams through handle_data; views compared as address maps modulo the incarnation next to Down; then re-apply own state; then exchange between two instances. distinct = distinct sorted multisets with at least two updates on one address".into();
+    out.rule = "random update multisets over 4 addresses x 4 generations x incarnations {0,1,2,3,255,256,2^15-1,2^15,2^15+1,2^15+2,MAX-1,MAX, random u16} x 3 states (plus other identities of the instance's own address), sizes 1..10; each applied in 6 random permutations with random duplications - five through the real apply_many (whole list or one by one), one over the wire as Gossip datagrams through handle_data; views compared as address maps modulo the incarnation next to Down; then forget-timers of other identities of a Down record's address (must leave it alone); then re-apply own state; then exchange between two instances. distinct = distinct sorted multisets with at least two updates on one address".into();
     let mut g = G::new(seed ^ 0xC01);
     let own = VId::new(9, 1, 0, 0);
     let incs = [0u16, 1, 2, 3, 255, 256, 32767, 32768, 32769, 32770, 65534, 65535];
@@ -196,6 +196,27 @@ pub fn c01(seed: u64, budget: u64) -> FOut {
                                 ("view_b", J::s(format!("{v:?}"))),
                             ]),
                         );
+                    }
+                }
+            }
+            // Down is final until THAT member is forgotten: the forget-timer of any other identity of the
+            // address (an older or a newer generation) leaves the record alone
+            {
+                let before = inst.snapshot();
+                for m in before.members.iter().filter(|m| m.state == 2) {
+                    for dg in [1u16, 2, 3] {
+                        let other = VId { g: m.id.g.wrapping_add(dg) % 4, ..m.id };
+                        if other == m.id {
+                            continue;
+                        }
+                        let (effs, _) = run_real(&mut inst.foca, &Input::Timer(MTimer::RemoveDown(other)));
+                        let after = inst.snapshot();
+                        if after.members != before.members || !effs.is_empty() {
+                            out.hit(
+                                "C01:down-record-forgotten-by-another-identity's-timer",
+                                J::obj(vec![("record", J::s(format!("{m:?}"))), ("timer", J::s(format!("RemoveDown({other:?})"))), ("members_after", J::s(format!("{:?}", after.members)))]),
+                            );
+                        }
                     }
                 }
             }
@@ -689,7 +710,7 @@ pub fn c11(seed: u64, budget: u64) -> FOut {
 /// C09: one record per address; identities move forward; own address never active; discard
 pub fn c09(seed: u64, budget: u64) -> FOut {
     let mut out = FOut::default();
-    out.rule = "seeded single-instance histories (300 calls, several generations per address incl. the instance's own); after every call: no two records share an address, no active record bears the own address, number of records <= distinct addresses told so far, every Rename(a,b) has b winning against a, the identity stored for an address only changes to one that wins (until the address is forgotten), a datagram changes only records of addresses it names itself (sender, member section), and a datagram whose sender is not active after header processing (Down or superseded) leaves every other record untouched and reaches the handler with no item. distinct = histories with at least one Rename or own-address record".into();
+    out.rule = "seeded single-instance histories (300 calls, several generations per address incl. the instance's own); after every call: no two records share an address, no active record bears the own address, number of records <= distinct addresses told so far, every Rename(a,b) has b winning against a, the identity stored for an address only changes to one that wins (until the address is forgotten), an address loses its record only through the forget-timer of exactly the (Down) identity recorded, a datagram changes only records of addresses it names itself (sender, member section), and a datagram whose sender is not active after header processing (Down or superseded) leaves every other record untouched and reaches the handler with no item. distinct = histories with at least one Rename or own-address record".into();
     for h in 0..budget {
         let mut hits: Vec<(String, J)> = vec![];
         let mut told: HashSet<u16> = HashSet::new();
@@ -762,6 +783,15 @@ pub fn c09(seed: u64, budget: u64) -> FOut {
                 }
             }
             for m in &pre.members {
+                if !post.members.iter().any(|x| x.id.a == m.id.a) {
+                    // the address lost its record: only the forget-timer of exactly that (Down) identity may do that
+                    let own_timer = matches!(input, Input::Timer(MTimer::RemoveDown(i)) if *i == m.id);
+                    if !(own_timer && m.state == 2) {
+                        hits.push(("C09:record-removed-without-its-own-forget-timer".into(), J::s(format!("{m:?} vanished on {input:?}"))));
+                    }
+                }
+            }
+            for m in &pre.members {
                 if let Some(n) = post.members.iter().find(|x| x.id.a == m.id.a) {
                     use foca::Identity;
                     if n.id != m.id && !n.id.win_addr_conflict(&m.id) {
@@ -774,7 +804,7 @@ pub fn c09(seed: u64, budget: u64) -> FOut {
                     }
                 }
             }
-            // a datagram changes only records of addresses it names itself (its sender, its member section)
+            // an address loses its record only through the forget-timer of exactly the (Down) identity recorded, a datagram changes only records of addresses it names itself (its sender, its member section)
             if let Input::Data(b) = input {
                 let mut named: HashSet<u16> = HashSet::new();
                 let mut cur = &b[..];
@@ -1117,7 +1147,8 @@ pub fn gen_rejected(g: &mut G, s: &MState) -> Input {
 /// C17: twin runs with and without rejected inputs
 pub fn c17(seed: u64, budget: u64) -> FOut {
     let mut out = FOut::default();
-    out.rule = "twin runs on the real crate: a seeded base history (200 calls) is replayed on a second identical instance with rejected inputs of every class (oversize, undecodable header, member list that stops decoding after some good members, own identity/address source, wrong destination, one trailing byte, stale-epoch timers, NotUndead, SameIdentity, InvalidConfig, empty add_broadcast) inserted at random points; every effect list and result of the base inputs and the final full state (incl. RNG position) must be identical, and each inserted input must itself produce no effect; also the same history twice gives identical streams. distinct = twin runs with at least 5 insertions of at least 3 classes".into();
+    crate::eqid::check(seed, &mut out);
+    out.rule = "twin runs on the real crate: a seeded base history (200 calls) is replayed on a second identical instance with rejected inputs of every class (oversize, undecodable header, member list that stops decoding after some good members, own identity/address source, wrong destination, one trailing byte, stale-epoch timers, NotUndead, SameIdentity, InvalidConfig, empty add_broadcast) inserted at random points; every effect list and result of the base inputs and the final full state (incl. RNG position) must be identical, and each inserted input must itself produce no effect; also the same history twice gives identical streams; and, with an identity type whose PartialEq ignores a metadata field, a change_identity call rejected with SameIdentity leaves the stored identity (metadata included) untouched. distinct = twin runs with at least 5 insertions of at least 3 classes".into();
     for h in 0..budget {
         let hs = seed.wrapping_mul(92821).wrapping_add(h);
         // run A, recording inputs
@@ -1206,7 +1237,7 @@ pub fn c17(seed: u64, budget: u64) -> FOut {
 /// C14: round-robin probing within 2n-1 rounds
 pub fn c14(seed: u64, budget: u64) -> FOut {
     let mut out = FOut::default();
-    out.rule = "real Foca with a stable membership: n = 1..12 active members and 0..6 Down records inserted in random order (random positions via the insertion swap), random RNG seed, starting cursor reached by 0..n prior rounds / joins / forgets; 20n probe rounds driven by the probe timers (never answering, never delivering suspicion timeouts: members stay active as Suspect); each round must ping exactly one active member (never Down, never self) and every window of 2n-1 consecutive rounds must contain every active member. distinct = distinct (n, downs, seed) layouts".into();
+    out.rule = "real Foca with a stable membership: n = 1..12 active members and 0..6 Down records (in a third of the layouts also Alive / Suspect news about an older and / or newer identity of the instance's own address, which must be stored Down and never probed) inserted in random order (random positions via the insertion swap), random RNG seed, starting cursor reached by 0..n prior rounds / joins / forgets; 20n probe rounds driven by the probe timers (never answering, never delivering suspicion timeouts: members stay active as Suspect); each round must ping exactly one active member (never Down, never self) and every window of 2n-1 consecutive rounds must contain every active member. distinct = distinct (n, downs, seed) layouts".into();
     let mut g = G::new(seed ^ 0xC14);
     for run in 0..budget {
         let n = 1 + g.below(12) as u16;
@@ -1217,6 +1248,18 @@ pub fn c14(seed: u64, budget: u64) -> FOut {
         let mut inst = Inst::new(own, &cfg, g.next(), 0, 255);
         let mut ups: Vec<MMember> = (0..n).map(|i| MMember { id: VId::new(i + 1, 0, 0, 0), inc: 0, state: g.below(2) as u8 }).collect();
         ups.extend((0..downs).map(|i| MMember { id: VId::new(100 + i + 1, 0, 0, 0), inc: 0, state: 2 }));
+        // in a third of the layouts the cluster also talks about other identities of the instance's own
+        // address (an older and / or a newer generation), Alive or Suspect: they are stored Down, never probed
+        let mut own_addr_ids = 0;
+        if g.chance(35) {
+            for gen in [0u16, 2] {
+                if g.chance(60) {
+                    ups.push(MMember { id: VId::new(99, gen, 0, 0), inc: g.below(3) as u16, state: g.below(2) as u8 });
+                    own_addr_ids += 1;
+                }
+            }
+        }
+        let _ = own_addr_ids;
         for i in (1..ups.len()).rev() {
             let j = g.below(i as u64 + 1) as usize;
             ups.swap(i, j);
@@ -1225,7 +1268,7 @@ pub fn c14(seed: u64, budget: u64) -> FOut {
         let late = if ups.len() > 2 { g.below(3) as usize } else { 0 };
         let (first, later) = ups.split_at(ups.len() - late);
         run_real(&mut inst.foca, &Input::ApplyMany(first.to_vec(), false));
-        let active: Vec<VId> = ups.iter().filter(|m| m.state != 2).map(|m| m.id).collect();
+        let active: Vec<VId> = ups.iter().filter(|m| m.state != 2 && m.id.a != own.a).map(|m| m.id).collect();
         let mut pings: Vec<VId> = vec![];
         let mut bad: Option<J> = None;
         let warm = g.below(n as u64 + 1);
@@ -1930,8 +1973,80 @@ fn mk_dgram(src: VId, inc: u16, dst: VId, m: foca::Message<VId>) -> Vec<u8> {
 pub fn c12(seed: u64, budget: u64) -> FOut {
     use foca::Message as Mg;
     let mut out = FOut::default();
-    out.rule = "real instance A with n = 2..6 members (a quarter of them already Suspect through gossip) and fan-out 1..3, in half of the layouts with a packet size too small for a full Feed and an Announce from a non-target member answered in the middle of the round: one probe round is driven by its own timers; an Ack or ForwardedAck is injected from {target, asked helper, unasked member, unknown} x probe number {previous, current, next} x arrival {before the indirect stage, after it, after the next round started} (exhaustive per layout, random layouts/seeds); expected: the next round raises no suspicion iff the evidence is genuine (Ack: target+current+in time; ForwardedAck: asked helper+current+after the indirect stage+in time), otherwise the target becomes Suspect and exactly one suspicion timeout is scheduled; PingReq only when no valid Ack came before probe_rtt, to <= num_indirect_probes distinct active members other than the target; then a full four-instance relay chain A->C->B->C->A must preserve origin/target/number and complete the probe. distinct = table rows".into();
+    out.rule = "real instance A with n = 2..6 members (a quarter of them already Suspect through gossip) and fan-out 1..3, in half of the layouts with a packet size too small for a full Feed and an Announce from a non-target member answered in the middle of the round: one probe round is driven by its own timers; an Ack or ForwardedAck is injected from {target, asked helper, unasked member, unknown} x probe number {previous, current, next} x arrival {before the indirect stage, after it, after the next round started} (exhaustive per layout, random layouts/seeds); expected: the next round raises no suspicion iff the evidence is genuine (Ack: target+current+in time; ForwardedAck: asked helper+current+after the indirect stage+in time), otherwise the target becomes Suspect and exactly one suspicion timeout is scheduled; PingReq only when no valid Ack came before probe_rtt, to <= num_indirect_probes distinct active members other than the target; also: after the genuine Ack of a round a stray Ack (previous number from the target / current number from another member, before or after the indirect stage) must change nothing; then a full four-instance relay chain A->C->B->C->A must preserve origin/target/number and complete the probe. distinct = table rows".into();
     let mut g = G::new(seed ^ 0xC12);
+    // evidence is kept: after the genuine Ack of the round, a stray Ack (old number from the target, or the
+    // current number from another member) before or after the indirect stage changes nothing - no PingReq,
+    // no suspicion, no timeout
+    for stray_from_target in [true, false] {
+        for stray_after_indirect in [false, true] {
+            for fan in 1..=3u128 {
+                let a_id = VId::new(50, 1, 0, 0);
+                let mut cfg = big_cfg();
+                cfg.num_indirect_probes = fan;
+                let mut a = Inst::new(a_id, &cfg, seed ^ 0x51A7, 0, 255);
+                let members: Vec<MMember> = (1..=4u16).map(|i| MMember { id: VId::new(i, 0, 0, 0), inc: 0, state: 0 }).collect();
+                run_real(&mut a.foca, &Input::ApplyMany(members.clone(), false));
+                // two rounds, so that an 'old' probe number exists
+                let mut target: Option<(VId, u8)> = None;
+                let mut indirect: Option<MTimer> = None;
+                for round in 0..2 {
+                    let tok = a.snapshot().token;
+                    let (e, _) = run_real(&mut a.foca, &Input::Timer(MTimer::Probe(tok)));
+                    target = None;
+                    indirect = None;
+                    for x in &e {
+                        match x {
+                            Eff::Send(d, b) => {
+                                if let Some(h) = hdr_of(b) {
+                                    if let Mg::Ping(k) = h.message {
+                                        target = Some((*d, k));
+                                    }
+                                }
+                            }
+                            Eff::Submit(t @ MTimer::Indirect(..), _) => indirect = Some(t.clone()),
+                            _ => {}
+                        }
+                    }
+                    if round == 0 {
+                        if let (Some((t, k)), Some(it)) = (target, indirect.clone()) {
+                            run_real(&mut a.foca, &Input::Data(mk_dgram(t, 0, a_id, Mg::Ack(k))));
+                            run_real(&mut a.foca, &Input::Timer(it));
+                        }
+                    }
+                }
+                let (Some((t, k)), Some(it)) = (target, indirect) else { continue };
+                out.runs += 1;
+                out.distinct.insert(hash_of(&("stray", stray_from_target, stray_after_indirect, fan)));
+                // the genuine evidence
+                run_real(&mut a.foca, &Input::Data(mk_dgram(t, 0, a_id, Mg::Ack(k))));
+                let other = members.iter().map(|m| m.id).find(|i| *i != t).unwrap();
+                let stray = if stray_from_target { mk_dgram(t, 0, a_id, Mg::Ack(k.wrapping_sub(1))) } else { mk_dgram(other, 0, a_id, Mg::Ack(k)) };
+                let mut sent_req = false;
+                if !stray_after_indirect {
+                    run_real(&mut a.foca, &Input::Data(stray.clone()));
+                }
+                let (e2, _) = run_real(&mut a.foca, &Input::Timer(it));
+                sent_req |= e2.iter().any(|x| matches!(x, Eff::Send(_, b) if hdr_of(b).map(|h| matches!(h.message, Mg::PingReq { .. })).unwrap_or(false)));
+                if stray_after_indirect {
+                    run_real(&mut a.foca, &Input::Data(stray));
+                }
+                let tok = a.snapshot().token;
+                let (e3, _) = run_real(&mut a.foca, &Input::Timer(MTimer::Probe(tok)));
+                let post = a.snapshot();
+                let suspected = post.members.iter().any(|m| m.id == t && m.state != 0);
+                let timeout = e3.iter().any(|x| matches!(x, Eff::Submit(MTimer::SuspectToDown(i, _, _), _) if *i == t));
+                if sent_req || suspected || timeout {
+                    out.hit(
+                        "C12:stray-ack-undoes-genuine-evidence",
+                        J::s(format!("fan-out {fan}, genuine Ack({k}) from {t:?}, then a stray Ack {} {} the indirect stage: PingReq sent={sent_req} target suspected={suspected} timeout scheduled={timeout}",
+                            if stray_from_target { "with the previous number from the target" } else { "with the current number from another member" },
+                            if stray_after_indirect { "after" } else { "before" })),
+                    );
+                }
+            }
+        }
+    }
     for run in 0..budget {
         let n = 2 + g.below(5) as u16;
         let fan = 1 + g.below(3) as u128;
